@@ -1,7 +1,7 @@
 ---- MODULE GramInt ----
 \* Exact integers as sign-magnitude limb sequences, base 10000, least significant limb first.
 \* [s |-> -1|0|1, m |-> <<limbs>>], zero is [s |-> 0, m |-> <<0>>].
-EXTENDS Naturals, Integers, Sequences
+EXTENDS Naturals, Integers, Sequences, TLC
 LOCAL B == 10000
 
 RECURSIVE TrimM(_)
@@ -71,6 +71,13 @@ DivMFrom(a, b, i, rem) == IF i = 0 THEN [q |-> <<>>, r |-> rem]
 DivM(a, b) == LET res == DivMFrom(a, b, Len(a), <<0>>) IN TrimM(res.q)
 \* truncated division; undefined (caller checks) when b is zero
 Quot(x, y) == IF x.s = 0 THEN Zero ELSE Norm(x.s * y.s, DivM(x.m, y.m))
+
+\* decimal digit strings (sequences of "0".."9", most significant first) -> exact integer (Horner)
+DigitVal(id) == CHOOSE d \in 0..9 : ToString(d) = id
+Ten == [s |-> 1, m |-> <<10>>]
+RECURSIVE DigitsFrom(_,_,_)
+DigitsFrom(ds, i, acc) == IF i > Len(ds) THEN acc ELSE DigitsFrom(ds, i + 1, Add(Mul(acc, Ten), OfSmall(DigitVal(ds[i]))))
+DigitsToInt(ds) == DigitsFrom(ds, 1, Zero)
 
 WellFormed(x) == /\ x.s \in {-1,0,1} /\ Len(x.m) >= 1 /\ \A i \in 1..Len(x.m) : x.m[i] \in 0..(B-1)
                  /\ (x.s = 0 <=> x.m = <<0>>) /\ (Len(x.m) > 1 => x.m[Len(x.m)] # 0)
